@@ -6,6 +6,7 @@ from vlib import *
 from frame_lib import *
 
 PROPS = "Props/C35"
+FAMILY = "frame"
 GO = GoSide()
 
 MAXU32 = (1 << 32) - 1
@@ -60,13 +61,15 @@ def rand_type(rng):
 def rand_body(rng, pv, big=False):
     r = rng.random()
     if big:
-        n = rng.choice([4096, 5000, 16384, 20000, 65536, 70001])
+        n = rng.choice([4096, 5000, 16384, 20000, 30000, 66000])
     elif r < 0.45:
         n = rng.randrange(0, 24)
     elif r < 0.8:
         n = rng.randrange(24, 200)
-    elif r < 0.97:
-        n = rng.randrange(200, 1500)
+    elif r < 0.95:
+        n = rng.randrange(200, 700)
+    elif r < 0.99:
+        n = rng.randrange(700, 1500)
     else:
         n = rng.randrange(1500, 6000)
     if pv == 0:
@@ -176,7 +179,7 @@ def gen_ops(ctx):
         ops.append((line, kind, {"exp": expect(seq0, pv, pops), "enc": enc}))
 
     seqs = [0, 0, 0, 1, 2, 1000, (1 << 31) - 2, (1 << 32) - 3, (1 << 32) - 1, (1 << 33) - 2, (1 << 40) + 7]
-    n_plain = 260 if quick else 2500
+    n_plain = 220 if quick else 2500
     for i in range(n_plain):
         pv = rng.choice([0, 1, 1, 2])
         add_stream("stream-plain", pv, 0, rng.choice([0, 1]), rng.choice(seqs), rand_ops(rng, pv, rng.randrange(0, 9)))
@@ -185,12 +188,12 @@ def gen_ops(ctx):
         add_stream("stream-enc", pv, 1, rng.choice([0, 1]), rng.choice(seqs + [-1] * 0), rand_ops(rng, pv, rng.randrange(0, 9)))
     # every (read buffer, write buffer, chunk) combination on one fixed mixed stream
     for enc in (0, 1):
-        fixed = rand_ops(rng, 1, 7)
+        fixed = [o if o[0] == "F" else (o[0], o[1], o[2][:120]) + o[3:] for o in rand_ops(rng, 1, 7)]
         for rb in BUFS[:8]:
             for wb in BUFS[:8]:
                 add_stream("stream-bufsizes", 1, enc, 1, 5, fixed, sched=rng.choice(SCHEDS), rb=rb, wb=wb)
     # large packets
-    for i in range(10 if quick else 80):
+    for i in range(6 if quick else 80):
         pv = rng.choice([0, 1, 2])
         enc = rng.choice([0, 1])
         add_stream("stream-large", pv, enc, 1, rng.choice(seqs), rand_ops(rng, pv, 3, big_at=rng.randrange(0, 3)),
@@ -353,6 +356,28 @@ def gen_ops(ctx):
             if tail + need > 3:
                 end = "err"
         add_raw("raw-padding", pv, enc, crc, seq0, data, (exp, end))
+    # one byte of a padding word of an encrypted stream's plaintext changed
+    for rep in range(40 if quick else 400):
+        pv = rng.choice([0, 1, 2])
+        crc = rng.choice([0, 1])
+        seq0 = rng.choice(seqs)
+        pk = [(rand_type(rng), rand_body(rng, pv)[:40]) for _ in range(3)]
+        if pv == 0:
+            pk = [(t, b[:len(b) - len(b) % 4]) for t, b in pk]
+        data = bytearray()
+        pads = []  # (offset of a padding byte, number of packets in front of it)
+        for i, (t, b) in enumerate(pk):
+            j = rng.choice([1, 2, 3]) if i else 0
+            pads += [(len(data) + x, i) for x in range(4 * j)]
+            data += PADW * j + py_frame(seq0 + i, t, b, crc, True)
+        j = (-len(data) % 16) // 4
+        pads += [(len(data) + x, len(pk)) for x in range(4 * j)]
+        data += PADW * j
+        if not pads:
+            continue
+        off, k = rng.choice(pads)
+        data[off] ^= rng.randrange(1, 256)
+        add_raw("corrupt-padding", pv, 1, crc, seq0, bytes(data), (pk[:k], ("err", "unexp")))
     # first packet of a connection: no padding may precede it
     add_raw("raw-padding", 0, 0, 0, -2, PADW + py_frame(-2, TYPE_NONCE, b"\0" * 28, 0, False), ([], "err"))
     # non-zero alignment bytes (encrypted stream, body length not a multiple of 4)
@@ -416,7 +441,7 @@ def oracle(ctx, ops, go_out):
                 if ok and data["enc"]:
                     ok = side.get("bufok") == "1" and side.get("dec") == "1" and side.get("cipher_differs") == "true"
                     why = "cipher stream is not the block-wise encryption of the plaintext stream"
-        elif kind.startswith("corrupt"):
+        elif kind.startswith("corrupt") and kind != "corrupt-padding":
             d = side if data["enc"] else kv(out)
             recv = parse_recv(d.get("recv", "?:")) if out.startswith("ok") else None
             sent = data["sent"]
@@ -439,9 +464,10 @@ def oracle(ctx, ops, go_out):
             if ok and data["enc"]:
                 ok = side.get("bufok") == "true"
                 why = "cipher stream is not the block-wise encryption of the plaintext stream"
-        elif kind.startswith("raw") and data["exp"] is not None:
+        elif (kind.startswith("raw") or kind == "corrupt-padding") and data["exp"] is not None:
             d = kv(out)
-            ok = out.startswith("ok ") and parse_recv(d.get("recv", "?:")) == data["exp"][0] and d.get("end") == data["exp"][1]
+            want_end = data["exp"][1] if isinstance(data["exp"][1], tuple) else (data["exp"][1],)
+            ok = out.startswith("ok ") and parse_recv(d.get("recv", "?:")) == data["exp"][0] and d.get("end") in want_end
             why = "reader verdict on a hand-made stream"
         if not ok:
             bad.append((op, kind, out + " | " + (GO.side[i] if i < len(GO.side) else ""), f"C35:oracle:{kind}:{why}"))
